@@ -755,6 +755,154 @@ var concProp = vp.Register(vp.Prop[Case]{
 })
 
 // ---------------------------------------------------------------------------
+// two independently built handlers on one writer
+
+// atomicWriter is a destination whose Write is atomic (as a file opened for
+// appending, or a buffer behind a lock).  When it is given a payload that
+// does not end a line, it lets another user of the same destination write
+// before it returns: that is where a concurrent record of a handler that does
+// not share the first handler's lock would land.
+type atomicWriter struct {
+	mu       sync.Mutex
+	data     []byte
+	partial  int
+	between  func() // called (outside the lock) after a payload that does not end with a newline
+	injected bool
+}
+
+func (w *atomicWriter) Write(p []byte) (int, error) {
+	w.mu.Lock()
+	w.data = append(w.data, p...)
+	open := len(p) > 0 && p[len(p)-1] != '\n'
+	if open {
+		w.partial++
+	}
+	between := w.between
+	w.mu.Unlock()
+	if open && between != nil {
+		between()
+	}
+	return len(p), nil
+}
+
+// checkTwoTrees: handlers sharing one writer need not share a lock (two
+// NewJSONHybridHandler calls on the same file); their lines must not
+// interleave either.
+func checkTwoTrees(c Case) error {
+	opts := c.opts()
+	w := &atomicWriter{}
+	rootA, rootB := slogutil.NewJSONHybridHandler(w, opts), slogutil.NewJSONHybridHandler(w, opts)
+	nodesA, nodesB := c.tree(rootA), c.tree(rootB)
+	type job struct {
+		n *node
+		r slog.Record
+	}
+	var jobsA, jobsB []job
+	var want []string
+	for i, rs := range c.Records {
+		r := rs.build()
+		for _, u := range rs.Uses {
+			nodes := nodesA
+			if i%2 == 1 {
+				nodes = nodesB
+			}
+			n := nodes[u%len(nodes)]
+			line, err := expectedLine(opts, r, n)
+			if err != nil {
+				continue
+			}
+			if i%2 == 1 {
+				jobsB = append(jobsB, job{n, r})
+			} else {
+				jobsA = append(jobsA, job{n, r})
+			}
+			want = append(want, wantSeverity(slog.Level(rs.Level))+"|"+line)
+		}
+	}
+	// While a record of tree A is only partly written, the next record of tree
+	// B is handled by another goroutine (waited for briefly: if B shared A's
+	// lock it could not finish, and that would be fine).
+	nextB := 0
+	var bErr error
+	w.between = func() {
+		if nextB >= len(jobsB) {
+			return
+		}
+		j := jobsB[nextB]
+		nextB++
+		w.injected = true
+		fin := make(chan error, 1)
+		go func() { fin <- j.n.h.Handle(c.ctx(), j.r) }()
+		select {
+		case err := <-fin:
+			if err != nil {
+				bErr = err
+			}
+		case <-time.After(2 * time.Second):
+		}
+	}
+	for _, j := range jobsA {
+		if err := j.n.h.Handle(c.ctx(), j.r); err != nil {
+			return fmt.Errorf("Handle returned %v", err)
+		}
+	}
+	w.between = nil
+	for ; nextB < len(jobsB); nextB++ {
+		if err := jobsB[nextB].n.h.Handle(c.ctx(), jobsB[nextB].r); err != nil {
+			return fmt.Errorf("Handle returned %v", err)
+		}
+	}
+	if bErr != nil {
+		return fmt.Errorf("Handle returned %v", bErr)
+	}
+	time.Sleep(0)
+	w.mu.Lock()
+	out := string(w.data)
+	w.mu.Unlock()
+	var got []string
+	if len(want) > 0 {
+		if !strings.HasSuffix(out, "\n") {
+			return fmt.Errorf("output does not end with a newline: %q", out)
+		}
+		for _, line := range strings.Split(strings.TrimSuffix(out, "\n"), "\n") {
+			sev, msg, err := parseLine(line)
+			if err != nil {
+				return fmt.Errorf("two handlers built separately on one writer (its Write is atomic; a record of the second handler was written while a record of the first was only partly written: %v): %w", w.injected, err)
+			}
+			got = append(got, sev+"|"+msg)
+		}
+	}
+	sort.Strings(got)
+	sort.Strings(want)
+	if !slices.Equal(got, want) {
+		return fmt.Errorf("two handlers on one writer: output lines differ from the expected multiset:\n  got:  %q\n  want: %q", got, want)
+	}
+	vp.Class("two-trees")
+	if len(jobsA) > 0 && len(jobsB) > 0 {
+		vp.NonTrivialStr("c19.two-trees", fmt.Sprintf("%+v", c))
+		vp.Sample("two-trees", c)
+	}
+	return nil
+}
+
+var twoTreesProp = vp.Register(vp.Prop[Case]{
+	Kind: "c19.two-trees", Base: 3000,
+	Gen: func(t *rapid.T) Case {
+		c := genCase(t, true)
+		c.ViaNew, c.FailAt = 0, 0
+		return c
+	},
+	Check: checkTwoTrees,
+})
+
+func TestTwoTrees(t *testing.T) {
+	if os.Getenv("VP_VARIANT") == "conc" {
+		t.Skip("runs in the seq variant")
+	}
+	vp.Run(t, twoTreesProp)
+}
+
+// ---------------------------------------------------------------------------
 // re-entrant values
 
 // ReentrantCase: a record carries an attribute value whose LogValue / String /
